@@ -240,6 +240,7 @@ type Case struct {
 	History   []string `json:"history"`
 	Oracle    string   `json:"oracle"`
 	Signature string   `json:"signature"`
+	Limits    *limits  `json:"limits,omitempty"` // truncation stage: the limits of the pool (absent: the default limits)
 }
 
 type found struct {
@@ -294,14 +295,18 @@ func sigOf(cls, oracle string) string { return "C17|" + cls + "|oracle=" + oracl
 
 // recordViolation keeps, per signature, the smallest failing history.
 func recordViolation(cls string, hist []uint16, f finding) {
+	recordViolationAt(cls, hist, f, nil, rankOf(hist))
+}
+
+// recordViolationAt: lim != nil for cases of the truncation stage (pool built with other limits).
+func recordViolationAt(cls string, hist []uint16, f finding, lim *limits, rank []int) {
 	sig := sigOf(cls, f.oracle)
 	if !r.IsKnown(sig) {
 		atomic.AddInt64(&violCount, 1)
 	}
-	rank := rankOf(hist)
 	fmu.Lock()
 	if b := best[sig]; b == nil || lessRank(rank, b.rank) {
-		best[sig] = &found{rank: rank, c: Case{History: histNames(hist), Oracle: f.oracle, Signature: sig}, detail: f.detail}
+		best[sig] = &found{rank: rank, c: Case{History: histNames(hist), Oracle: f.oracle, Signature: sig, Limits: lim}, detail: f.detail}
 	}
 	fmu.Unlock()
 }
@@ -323,10 +328,15 @@ func replayCase(c Case) (sigs map[string]string, err error) {
 	var st transStats
 	x := getCtx()
 	defer putCtx(x)
+	prefix := ""
+	if c.Limits != nil {
+		x.lim = *c.Limits
+		prefix = truncStagePrefix
+	}
 	out := runCase(x, hist[:len(hist)-1], ops[hist[len(hist)-1]], true, &st)
 	sigs = map[string]string{}
 	for _, f := range out.f {
-		sigs[sigOf(out.cls, f.oracle)] = fmt.Sprintf("after %d of %d operations: %s", out.failAt+1, len(hist), f.detail)
+		sigs[sigOf(prefix+out.cls, f.oracle)] = fmt.Sprintf("after %d of %d operations: %s", out.failAt+1, len(hist), f.detail)
 	}
 	return sigs, nil
 }
@@ -470,6 +480,9 @@ func expand(frontier []node, full bool, keep int, async int, wide bool, label st
 		var st transStats
 		var trans, execs, nondet, changed int64
 		for _, op := range ops {
+			if op.trunc {
+				continue
+			}
 			if op.kind == opAsync {
 				// coalesced rounds are leaves: executed and judged from this node, not expanded further
 				if async == 0 || (async == 1 && !nd.red) || !op.enabled(cs) {
@@ -484,8 +497,17 @@ func expand(frontier []node, full bool, keep int, async int, wide bool, label st
 			atomic.AddInt64(&opCount[op.id], 1)
 			h2 := append(append(make([]uint16, 0, len(nd.hist)+1), nd.hist...), uint16(op.id))
 			if len(out.f) > 0 {
+				unlisted := false
 				for _, f := range out.f {
 					recordViolation(out.cls, h2[:out.failAt+1], f)
+					if !r.IsKnown(sigOf(out.cls, f.oracle)) {
+						unlisted = true
+					}
+				}
+				if unlisted {
+					// a violating transition is a leaf: what follows a broken state would only repeat
+					// the violation under other signatures (a known finding's successor is explored)
+					continue
 				}
 			}
 			if out.post == nil || len(out.res.errs) != len(op.toks) {
@@ -716,6 +738,7 @@ func main() {
 	initUniverse()
 	initOps()
 	initAsyncOps()
+	initTruncOps()
 	opCount = make([]int64, len(ops))
 	tokAccepted = make([]int64, len(tokens))
 	tokRejected = make([]int64, len(tokens))
@@ -765,6 +788,11 @@ func main() {
 
 	// the seeded search comes first: it is small and reaches the pool-full branch; then the main search
 	seeds := seedNodes()
+	truncLevels := 2
+	if r.Thorough() {
+		truncLevels = 3
+	}
+	r.Set("levels_truncation_stage", truncStage(truncLevels, r.Thorough()))
 	seedLevels := search(seeds, 0, seedDepth, asyncSeed, asyncSeed, false, "seeded")
 	mainLevels := search([]node{{hist: nil, key: k0, red: true}}, fullDepth, maxDepth, asyncAll, asyncRed, wide, "main")
 	asyncNew.Range(func(k, _ interface{}) bool { allStates[k.(khash)] = struct{}{}; return true })
@@ -775,10 +803,11 @@ func main() {
 	stopProfile()
 	flush()
 	guards(fullDepth)
+	truncGuards()
 
 	nFull, nRed := 0, 0
 	for _, o := range ops {
-		if o.kind == opAsync {
+		if o.kind == opAsync || o.trunc {
 			continue
 		}
 		nFull++
@@ -789,6 +818,10 @@ func main() {
 	r.Set("alphabet_full", nFull)
 	r.Set("alphabet_reduced", nRed)
 	r.Set("alphabet_coalesced_rounds", len(asyncOps))
+	truncVariantText := ""
+	if r.Thorough() {
+		truncVariantText = ", also with L made local first"
+	}
 	wideText := ""
 	if wide {
 		wideText = fmt.Sprintf(", then (last, as far as the deadline allows) all histories of length %d over the full alphabet", fullDepth+1)
@@ -801,10 +834,11 @@ func main() {
 		"main: breadth-first over all histories of length <= %d over the full alphabet and of length <= %d over the reduced alphabet%s; "+
 		"seeded: from %d histories that fill the pool to GlobalSlots+GlobalQueue (pool-full branch of add), all continuations of length <= %d over the reduced alphabet; "+
 		"coalesced rounds (%d: ordered pairs of 10 sub-batches x {no head change, A mined to 1 requested after both, A's balance lowered requested between them}): with a reorg run in flight and blocked on the pool lock, the locked sections of two submissions (addTxsLocked) and optionally a reset request execute, the real scheduleReorgLoop merges them into one run; executed as a last operation from every main state of depth <= %d (reduced-reachable states up to depth %d) and every seeded state of depth <= %d. "+
+		"truncation stage (trunc.go): pools with AccountSlots/GlobalSlots 1/3, 1/4, 2/5, 2/6 and queue limits that never bind; setup = ONE AddRemotesSync batch with the first l, a, b nonces of three remote senders for every (l,a,b) in {0..5}^3 (every combination of pending counts: unequal, equal, single and no offenders of truncatePending in one reorg run)%s, then every history of length <= %d over AddRemotesSync([t]) for every (sender, nonce 0..6) at price 1 (re-submission of every trimmed transaction, of kept ones, of the next nonces and of nonces behind a gap) and an unchanged head reset; "+
 		"A state is its shortest history; successor = fresh pool + replay + one operation; states are merged by key = Content() per sender + local set + gas price + chain state + heartbeat order; "+
 		"the oracle runs after every operation; transitions = operations judged on the real pool (replayed prefixes are counted under op_executions)",
 		cfgAccountSlots, cfgGlobalSlots, cfgAccountQueue, cfgGlobalQueue, cfgPriceBump, nFull, nRed, fullDepth, maxDepth, wideText, len(seedHistories), seedDepth,
-		len(asyncOps), asyncAll-1, asyncRed-1, asyncSeed-1))
+		len(asyncOps), asyncAll-1, asyncRed-1, asyncSeed-1, truncVariantText, truncLevels))
 	r.Assume(
 		"limits are read in the go-ethereum sense (DESIGN.md A.5) and only for the moment after a reorg run: SetGasPrice and rejected-before-the-lock submissions do not run one; the per-account queue cap is required only for non-local senders whose queue that run processed (senders of newly accepted transactions; after a head reset every sender, not counting transactions demoted from pending in that same run)",
 		"'local sender' is what Locals() reports; the price heap / SetGasPrice oracle uses the pool's own per-transaction local flag (lookup index halves) because AddLocal of a pending replacement marks the transaction but not the sender",
@@ -814,6 +848,8 @@ func main() {
 		"head changes are monotone (nonces only advance, balance and gas limit only drop) so that the chain-state space is finite; no reorg with an old head (transaction re-injection from dropped blocks) is driven",
 		"not owned: Go map iteration order inside the pool (victim choice in truncatePending among equal offenders, order of promotion and hence of heartbeats inside one reorg run). Invariants are checked on whatever outcome occurs; a replay that reaches another key than recorded is counted under nondeterministic_successors and explored as it is; the set of outcomes of such a transition is not exhausted",
 		"merged states have equal futures up to caches that are transparent when the pool is correct (see obs.key); time.Now heartbeats are monotone because operations are sequential",
+		"reference partition (partition-vs-reference): when no limit can bind and nothing disappeared, a sender with a newly placed transaction must offer exactly the maximal gap-free run of its pooled nonces from the state nonce, and a sender that submitted nothing keeps its lists; where a limit can bind only the invariants are required (which transactions a truncation removes is not modelled)",
+		"a transition with a violation that is not listed as known is a leaf of the search (its successor state is not expanded)",
 		"a coalesced round is judged at its end (state invariants, global limits, nothing appears unaccepted, local senders' transactions disappear only when replaced or invalidated by the new chain state); its intermediate states are not observed",
 		"NOT covered: lifetime expiry (the eviction branch of the pool's timer loop cannot be reached without wall-clock waits); free-running goroutine interleavings under the race detector (only the coalescing interleavings above are driven, deterministically); re-injection of transactions from dropped blocks (reset with an old head). A panic on one of the pool's own goroutines would terminate the checker instead of becoming a violation",
 	)
